@@ -141,11 +141,11 @@ class Observer:
         for d, fl in cont["files"].items():
             for name, f in fl.items():
                 for pos, st, hv in f["bl"]:
-                    if isinstance(hv, (int,)) or (isinstance(hv, list) and hv[0] == "s"):
+                    if isinstance(hv, (int,)) or (isinstance(hv, list) and hv[0] in ("s", "J")):
                         self.cands.setdefault((d, pos), set()).add(vt(hv))
         for d, dl in cont["del"].items():
             for pos, hv in dl.items():
-                if isinstance(hv, (int,)) or (isinstance(hv, list) and hv[0] == "s"):
+                if isinstance(hv, (int,)) or (isinstance(hv, list) and hv[0] in ("s", "J")):
                     self.cands.setdefault((d, int(pos)), set()).add(vt(hv))
 
     def note_fs(self, fs, cont):
@@ -160,7 +160,7 @@ class Observer:
                 for i, (pos, st, hv) in enumerate(f["bl"]):
                     if i < len(cur["b"]):
                         v = cur["b"][i]
-                        if isinstance(v, int) or (isinstance(v, list) and v[0] == "s"):
+                        if isinstance(v, int) or (isinstance(v, list) and v[0] in ("s", "J")):
                             self.cands.setdefault((d, pos), set()).add(vt(v))
 
     def parity_bytes(self, l, psizes):
